@@ -466,8 +466,54 @@ class Prov:
             if simple in STRING_PASSTHROUGH:
                 recv = self.of(e.func.value) if isinstance(e.func, ast.Attribute) else set()
                 return (recv | allargs) or {'CONST'}
+            summ = self._callee(e)
+            if summ is not None:
+                return summ
             return {'CALL:' + name} | allargs
         return {'UNKNOWN:' + type(e).__name__}
+
+    def _callee(self, call):
+        """a plain call of a function of the same module that has no summary: what it returns / yields, its parameters standing for the
+        provenance of the arguments (helpers that were not inlined: generators, recursive ones)"""
+        if self.repo is None or self.mod is None or not isinstance(call.func, ast.Name) or getattr(self, '_depth', 0) >= 3:
+            return None
+        try:
+            fn = self.repo.fn('%s:%s' % (self.mod.rel, call.func.id))
+        except Exception:       # noqa
+            return None
+        a = fn.node.args
+        if a.vararg or a.kwarg or a.posonlyargs or any(isinstance(x, ast.Starred) for x in call.args) or any(k.arg is None for k in call.keywords):
+            return None
+        names = [x.arg for x in a.args]
+        if len(call.args) > len(names):
+            return None
+        bound = {n: self.of(v) for n, v in zip(names, call.args)}
+        for k in call.keywords:
+            if k.arg not in names + [x.arg for x in a.kwonlyargs] or k.arg in bound:
+                return None
+            bound[k.arg] = self.of(k.value)
+        defaults = dict(zip(names[len(names) - len(a.defaults):], a.defaults))
+        defaults.update({x.arg: d for x, d in zip(a.kwonlyargs, a.kw_defaults) if d is not None})
+        for n in names + [x.arg for x in a.kwonlyargs]:
+            if n not in bound:
+                if n not in defaults:
+                    return None
+                bound[n] = {'CONST'} if isinstance(defaults[n], ast.Constant) else self.of(defaults[n])
+        sub = Prov(fn.node, contracts=bound, summaries=self.summaries, sanitizers=self.sanitizers, self_attrs=self.self_attrs,
+                   repo=self.repo, mod=self.mod)
+        sub._depth = getattr(self, '_depth', 0) + 1
+        out = set()
+        stack = list(fn.node.body)
+        found = False
+        while stack:
+            n = stack.pop()
+            if isinstance(n, (ast.FunctionDef, ast.AsyncFunctionDef, ast.ClassDef, ast.Lambda)):
+                continue
+            if isinstance(n, (ast.Return, ast.Yield, ast.YieldFrom)) and n.value is not None:
+                out |= sub.of(n.value)
+                found = True
+            stack.extend(ast.iter_child_nodes(n))
+        return (out or {'CONST'}) if found else {'CONST'}
 
     def _lambda_param(self, lam, name):
         # parameter of a lambda passed to map(lambda k: ..., seq): element of seq
